@@ -236,7 +236,15 @@ inline std::string makeAsm(sim::Rng &r) {
       }
       default: {        // call through LDAP/BRB: the callee stores its argument and returns to breg
         std::string f = "L" + std::to_string(lab++), ret = "L" + std::to_string(lab++), over = "L" + std::to_string(lab++), link = data();
-        s += "BR " + over + "\n" + f + "\nSTAM " + data() + "\nOPR BRB\n" + over + "\n";
+        // The callee is a plain label, or a PROC/FUNC directive (which also enters the symbol table);
+        // now and then a name is used for two procedures, as after a copy-and-paste.
+        std::string decl = f;
+        unsigned kind = (unsigned)r.below(3);
+        if (kind) {
+          f = "fn" + std::to_string(r.chance(1, 8) && lab > 3 ? (unsigned)r.below(3) : (unsigned)lab);
+          decl = std::string(kind == 1 ? "PROC " : "FUNC ") + f;
+        }
+        s += "BR " + over + "\n" + decl + "\nSTAM " + data() + "\nOPR BRB\n" + over + "\n";
         s += "LDAP " + ret + "\nSTAM " + link + "\nLDBM " + link + "\nLDAC " + std::to_string(r.below(1000)) + "\nBR " + f + "\n" + ret + "\n";
         break;
       }
